@@ -53,7 +53,7 @@ VARIABLES l, s, skip
 vars == <<l, s, skip>>
 
 Fresh == [stage |-> "idle", inc |-> 0, lastSeq |-> 0,
-          rdE |-> 0, rdC |-> 0, rdSnap |-> FALSE, cycLast |-> 0,
+          rdE |-> 0, rdC |-> 0, rdSnap |-> FALSE, snapSaved |-> FALSE, cycLast |-> 0,
           applied |-> 0, snapIdx |-> 0, savedHi |-> 0, handed |-> FALSE, firstAdv |-> TRUE,
           proposed |-> {}, pend |-> {}, appliedIds |-> {}, replied |-> {},
           started |-> {}, installed |-> {}, maxDone |-> 0, justSnap |-> FALSE]
@@ -63,7 +63,7 @@ Init == l = 1 /\ s = Fresh /\ skip = FALSE
 Max(a, b) == IF a >= b THEN a ELSE b
 
 \* start of a new incarnation: everything volatile is forgotten; snapshots taken so far stay on disk
-Reborn(t) == [t EXCEPT !.stage = "idle", !.inc = t.inc + 1, !.rdE = 0, !.rdC = 0, !.rdSnap = FALSE, !.cycLast = 0,
+Reborn(t) == [t EXCEPT !.stage = "idle", !.inc = t.inc + 1, !.rdE = 0, !.rdC = 0, !.rdSnap = FALSE, !.snapSaved = FALSE, !.cycLast = 0,
                        !.applied = 0, !.snapIdx = 0, !.handed = FALSE, !.firstAdv = TRUE,
                        !.proposed = {}, !.pend = {}, !.appliedIds = {}, !.replied = {}, !.justSnap = FALSE]
 
@@ -77,9 +77,16 @@ StepEv(t0, e) ==
   IF e.seq # 1 /\ e.seq # t0.lastSeq + 1 THEN Bad(t, "seq: event numbers of one incarnation are not contiguous (an event is missing)")
   ELSE IF e.ev = "ready" THEN
        IF t.stage # "idle" THEN Bad(t, "order: ready while the previous cycle has not reached advance")
-       ELSE Good([t EXCEPT !.stage = "ready", !.rdE = e.a, !.rdC = e.b, !.rdSnap = e.f, !.cycLast = 0])
+       ELSE Good([t EXCEPT !.stage = "ready", !.rdE = e.a, !.rdC = e.b, !.rdSnap = e.f, !.snapSaved = FALSE, !.cycLast = 0])
+  ELSE IF e.ev = "savesnap" THEN
+       \* the snapshot of a Ready (file + WAL record) is made durable BEFORE the hard state and entries of that Ready
+       \* (raft.go: "must save the snapshot file and WAL snapshot entry before saving any other entries or hardstate");
+       \* Recover.tla shows why: a hard state whose commit is the snapshot index must never be durable without the snapshot
+       IF t.stage # "ready" \/ ~t.rdSnap THEN Bad(t, "order: the snapshot of a Ready is saved after its hard state / entries (savesnap must come between ready and walsave)")
+       ELSE Good([t EXCEPT !.snapSaved = TRUE])
   ELSE IF e.ev = "walsave" THEN
        IF t.stage # "ready" THEN Bad(t, "order: walsave must directly follow ready")
+       ELSE IF t.rdSnap /\ ~t.snapSaved THEN Bad(t, "order: the snapshot of a Ready is saved after its hard state / entries (walsave of a Ready that carries a snapshot before savesnap)")
        ELSE IF e.a # t.rdE THEN Bad(t, "fields: walsave saved a different number of entries than the Ready carried")
        ELSE Good([t EXCEPT !.stage = "walsave", !.cycLast = e.b, !.savedHi = Max(@, e.b),
                            !.pend = IF e.a > 0 THEN {} ELSE @])
